@@ -41,6 +41,8 @@ class SourceModel:
             self.tree = ast.parse(text, filename)
         except SyntaxError as e:
             raise AnalysisError(f"source does not parse: {e}")
+        from . import alpha
+        self.alpha_applied = alpha.normalise(self.tree)     # locals renamed back to the reference names (behaviour-preserving; see alpha.py)
         self.classes = {}
         self.functions = {}       # qualified name -> FunctionDef
         self.module_assigns = {}  # name -> value node (last assignment at module level)
